@@ -48,6 +48,8 @@ pub struct C11Exec {
     pub reuse_threads_of: Option<usize>,
     /// before the execution, every caller parses this many unrelated, distinct contents
     pub warmup: usize,
+    /// the first validation after the last mutation is made by this many threads at once (0: none)
+    pub concurrent: usize,
 }
 
 impl C11Exec {
@@ -214,9 +216,11 @@ pub fn generate(rng: &mut Rng, thorough: bool) -> (C11Scenario, String) {
         twin_of: None,
         reuse_threads_of: None,
         warmup: 0,
+        concurrent: 0,
     });
     let p_detour = *rng.pick(&[0u32, 25, 50]);
     let p_reuse = *rng.pick(&[0u32, 0, 10, 35]);
+    let p_concurrent = *rng.pick(&[0u32, 10, 30]);
     for e in 1..knobs.n_execs {
         let mut order: Vec<usize> = (0..n).collect();
         match rng.below(4) {
@@ -327,6 +331,7 @@ pub fn generate(rng: &mut Rng, thorough: bool) -> (C11Scenario, String) {
             twin_of: None,
             reuse_threads_of,
             warmup,
+            concurrent: if rng.pct(p_concurrent) { rng.range(2, 4) } else { 0 },
         };
         debug_assert!(ex.ends_in_project(n, alts.len()));
         execs.push(ex);
@@ -354,6 +359,11 @@ pub fn generate(rng: &mut Rng, thorough: bool) -> (C11Scenario, String) {
 
 /// Run one execution against the real library. Returns the final observations; of a long
 /// series of repetitions only the first one and the first one that differs from it are kept.
+/// Repeated validations of one parser whose results are `==` but print differently through
+/// `Debug` (iteration order of a hash container inside the tree). Not a violation of C11 as
+/// decided by the library's own equality; counted and reported as a NOTE.
+pub static DEBUG_ONLY_DIFFERENCES: std::sync::atomic::AtomicU64 = std::sync::atomic::AtomicU64::new(0);
+
 pub fn execute(texts: &[(PathBuf, String)], alts: &[String], e: &C11Exec, callers: &Callers) -> Vec<Outcome> {
     let policy = e.policy;
     if e.warmup > 0 {
@@ -416,14 +426,29 @@ pub fn execute(texts: &[(PathBuf, String)], alts: &[String], e: &C11Exec, caller
         step += 1;
     }
     let repeats = e.repeats.max(1);
+    let concurrent = e.concurrent;
     callers.exec(caller_of(e.script.len() + 1), move || {
         let mut v = Vec::new();
+        if concurrent > 1 {
+            // several threads validate the shared parser at once, before anybody else did
+            if let Some(outs) = exec::observe_concurrently(&parser, concurrent, policy, step + 1000) {
+                v.extend(outs);
+            }
+        }
+        let first_seq = v.len();
         for r in 0..repeats {
             policy.install(step + r as u64);
             let o = exec::observe(&parser);
+            if r == 1 {
+                if let (Outcome::Ok(a), Outcome::Ok(b)) = (&v[first_seq], &o) {
+                    if canon::first_difference(&v[first_seq], &o).is_none() && format!("{a:?}") != format!("{b:?}") {
+                        DEBUG_ONLY_DIFFERENCES.fetch_add(1, std::sync::atomic::Ordering::Relaxed);
+                    }
+                }
+            }
             if r < 3 {
                 v.push(o);
-            } else if canon::first_difference(&v[0], &o).is_some() {
+            } else if canon::first_difference(&v[first_seq], &o).is_some() {
                 v.push(o);
                 break;
             }
@@ -444,6 +469,7 @@ pub struct C11Probes {
     pub treeless_multi_diag: bool,
     pub configs_differ: bool,
     pub thread_reuse: bool,
+    pub concurrent_validate: bool,
     pub thread_reuse_after_64_contents: bool,
     pub files: usize,
     pub diagnostics: usize,
@@ -562,6 +588,9 @@ pub fn run(s: &C11Scenario) -> C11Run {
             _ => std::rc::Rc::new(Callers::new(e.n_callers, e.policy, e.salt)),
         };
         caller_sets.push(callers.clone());
+        if e.concurrent > 1 {
+            probes.concurrent_validate = true;
+        }
         if e.reuse_threads_of.is_some() {
             probes.thread_reuse = true;
             if e.warmup >= 64 {
@@ -572,7 +601,7 @@ pub fn run(s: &C11Scenario) -> C11Run {
             let mut d = Digest::new();
             d.str(&script_str(&e.script));
             d.str(&format!("{:?}", e.callers));
-            d.str(&format!("{:?} {} {:?} {}", e.policy, e.repeats, e.reuse_threads_of, e.warmup));
+            d.str(&format!("{:?} {} {:?} {} {}", e.policy, e.repeats, e.reuse_threads_of, e.warmup, e.concurrent));
             schedules.push(d.finish());
         }
         let o = execute(&texts, &alt_texts, e, &callers);
@@ -820,6 +849,9 @@ pub fn to_json(s: &C11Scenario) -> J {
                         if e.warmup > 0 {
                             o.put("warmup", J::u(e.warmup as u64));
                         }
+                        if e.concurrent > 0 {
+                            o.put("concurrent", J::u(e.concurrent as u64));
+                        }
                         o
                     })
                     .collect(),
@@ -851,6 +883,7 @@ pub fn from_json(j: &J) -> Result<C11Scenario, String> {
             twin_of: e.get("twin_of").and_then(|v| v.as_u64()).map(|v| v as usize),
             reuse_threads_of: e.get("reuse_threads_of").and_then(|v| v.as_u64()).map(|v| v as usize),
             warmup: e.get("warmup").and_then(|v| v.as_u64()).unwrap_or(0) as usize,
+            concurrent: e.get("concurrent").and_then(|v| v.as_u64()).unwrap_or(0) as usize,
         });
     }
     let mut alts = Vec::new();
@@ -1070,6 +1103,11 @@ pub fn shrink_candidates(s: &C11Scenario) -> (Vec<C11Scenario>, usize) {
                 v.warmup = e.warmup * 3 / 4;
                 variants.push(v);
             }
+        }
+        if e.concurrent > 0 {
+            let mut v = e.clone();
+            v.concurrent = 0;
+            variants.push(v);
         }
         if e.repeats > 1 {
             let mut v = e.clone();
